@@ -2,7 +2,7 @@
 def table(J):
     return {
         "C01": [J("TestC01", checks=(6000, 40000), shards=(2, 16))],
-        "C02": [J("TestC02", checks=(5000, 40000), shards=(2, 16)), J("TestC02Histories", checks=(400, 6000), shards=(2, 8))],
+        "C02": [J("TestC02", checks=(5000, 40000), shards=(2, 16)), J("TestC02Histories", checks=(400, 6000), shards=(2, 8)), J("TestC02Constants")],
         "C03": [J("TestC03", checks=(6000, 40000), shards=(2, 16), fuzz=("FuzzC03", 120)), J("TestC03Histories", checks=(400, 6000), shards=(2, 8))],
         "C04": [J("TestC04", checks=(6000, 40000), shards=(2, 16), fuzz=("FuzzC04", 120))],
         "C05": [J("TestC05", checks=(8000, 60000), shards=(4, 16), fuzz=("FuzzC05", 120))],
